@@ -46,6 +46,7 @@ def main():
             exhaustive=meta.get("exhaustive", False),
             trusted_base=meta.get("trusted_base", ()),
             checks=getattr(mod, "CHECKS", None),
+            no_shrink=meta.get("no_shrink", ()),  # checks whose single evaluation is too slow to re-run many times
         )
     except engine.HarnessError as exc:
         print(f"HARNESS-ERROR property={prop}: {exc}", file=sys.stderr)
